@@ -14,7 +14,7 @@ Separate Extraction Z.add Z.mul Z.div Z.modulo Z.opp Z.sub Z.of_nat Z.to_nat Z.o
   Store.binit Store.bstep Store.brun
   NodeModel.pools0 NodeModel.pstep NodeModel.busy
   HgSpec.spec_mismatches
-  Window.window_stepb Window.round_gap Window.new_entries
+  Window.window_stepb Window.gap_stepb Window.round_gap Window.new_entries
   Gate.process_rpc Gate.add_transaction Gate.check_suspend Gate.init_state Gate.step Gate.run
   Proxy.call Proxy.call_attempts Proxy.through_block Proxy.through_cresp Proxy.through_bytes
   Proxy.new_peer Proxy.bytes_null Proxy.bytes_denull
